@@ -20,6 +20,7 @@ EXTENDS Strings, Rational
 CONSTANTS Residues, MaxLen, MaxSeqs, RankVals, MaxRank, PointVals, MaxPoints, Kinds, Mutations
 
 Gap == 99
+Missing == -1            \* a missing count (NaN); 0 is an ordinary count and is drawn
 VARIABLES kind, seqs, vals, opt, pos, counts, regex, out, step
 vars == <<kind, seqs, vals, opt, pos, counts, regex, out, step>>
 
@@ -45,11 +46,11 @@ SumSeq(s) == FoldLeft(LAMBDA acc, v : acc + v, 0, s)
 
 Init == /\ kind \in Kinds
         /\ seqs \in (IF kind = "align" THEN UNION { UNION { Aligned(n, L) : L \in 1..MaxLen } : n \in 1..MaxSeqs } ELSE {<<>>})
-        /\ vals \in (CASE kind = "rank" -> UNION { [1..n -> RankVals \cup {0}] : n \in 1..MaxRank }       \* 0 = missing (NaN)
+        /\ vals \in (CASE kind = "rank" -> UNION { [1..n -> RankVals \cup {Missing}] : n \in 1..MaxRank }
                        [] kind = "scatter" -> UNION { [1..n -> PointVals \X PointVals] : n \in 1..MaxPoints }
                        [] OTHER -> {<<>>})
         /\ opt \in (IF kind = "rank" THEN { [nx |-> a, ny |-> b] : a \in BOOLEAN, b \in BOOLEAN } ELSE {<<>>})
-        /\ (kind = "rank" => \E i \in 1..Len(vals) : vals[i] # 0)
+        /\ (kind = "rank" => \E i \in 1..Len(vals) : vals[i] > 0)
         /\ pos = 1 /\ counts = <<>> /\ regex = <<>> /\ out = <<>> /\ step = "start"
 
 \* ---- alignment_to_matrix: one row of residue counts per position (gaps are not counted)
@@ -68,7 +69,7 @@ RegexColumn == /\ kind = "align" /\ step = "regex"
 
 \* ---- rankfrequency
 RankData == /\ kind = "rank" /\ step = "start"
-            /\ \E present \in { SelectSeq(vals, LAMBDA v : v # 0) } :
+            /\ \E present \in { SelectSeq(vals, LAMBDA v : v # (IF "rank_drops_zero" \in Mutations THEN 0 ELSE Missing) /\ v # Missing) } :
                  \E sorted \in { SortSeq(present, LAMBDA a, b : a > b) } :
                     out' = [i \in 1..Len(sorted) |->
                               << IF opt.nx THEN RFrac(sorted[i], SumSeq(present)) ELSE R(sorted[i]),
@@ -97,7 +98,7 @@ RegexMatchesInputs == (Done /\ kind = "align") =>
 CountsExact == (Done /\ kind = "align") =>
     \A p \in 1..Len(seqs[1]) : \A r \in Residues : counts[p][r] = CountAt(seqs, p, r)
 RankDescending == (Done /\ kind = "rank") =>
-    /\ Len(out) = Cardinality({ i \in 1..Len(vals) : vals[i] # 0 })
+    /\ Len(out) = Cardinality({ i \in 1..Len(vals) : vals[i] # Missing })
     /\ \A i \in 1..(Len(out) - 1) : RLe(out[i + 1][1], out[i][1]) /\ RLt(out[i][2], out[i + 1][2])
     /\ (Len(out) > 0 => out[1][2] = <<0, 1>>)
 ScatterOnce == (Done /\ kind = "scatter") =>
